@@ -147,22 +147,29 @@ Definition fs_del_ref (f : fstore) (n : N) : fstore * res :=
              (f_rest f), ROk)
   else (f, RErr EPackedRefsBad).
 
-(* PackRefs: the hash references among the reference files (an empty file is
-   an error) followed by the packed lines of names that have no file; the
-   packed files are then removed.  Symbolic references stay loose. *)
+(* PackRefs: the hash references among the reference files under refs/ (an
+   empty file there is an error) followed by the packed lines of names that
+   have no file; the packed files are then removed.  Symbolic references and
+   HEAD stay loose. *)
 Definition pack_line (p : N * refval) : pline :=
   match snd p with RHash h => PGood (fst p) h | RSym _ => PBad end.
 Definition is_hash (v : refval) : bool := match v with RHash _ => true | RSym _ => false end.
 Definition keeps_loose (p : N * option refval) : bool :=
   match snd p with Some (RSym _) => true | _ => false end.
 
+(* the reference named HEAD lives outside refs/: Refs() lists it, PackRefs
+   neither packs nor needs it.  By convention of the correspondence it is name 4 *)
+Definition head_name : N := 4.
+Definition keeps_loose_or_head (p : N * option refval) : bool :=
+  (fst p =? head_name) || keeps_loose p.
+
 Definition fs_pack_refs (f : fstore) : fstore * res :=
-  match loose_list (f_loose f) with
+  match loose_list (fm_del head_name (f_loose f)) with
   | None => (f, RErr EEmptyRefFile)
   | Some [] => (f, ROk)
   | Some l =>
     if packed_okb (f_packed f)
-    then (mkFs (filter keeps_loose (f_loose f))
+    then (mkFs (filter keeps_loose_or_head (f_loose f))
                (map pack_line (filter (fun p => is_hash (snd p)) l)
                 ++ map pack_line (packed_unseen (map fst l) (f_packed f)))
                (f_rest f), ROk)
